@@ -258,8 +258,10 @@ macro_rules! attach_all {
   }};
 }
 
-/// Drives `fut` (spawned as the root task) under the tape: polls it when woken, opens gates, injects spurious wakes
-/// and stalls. Returns the number of root polls, or None if a lost wake-up was detected.
+/// Drives `fut` (spawned as the root task) under the tape. The root is polled whenever it has been woken (a
+/// deterministic drain that consumes no tape: how often FuturesUnordered re-wakes itself depends on the resolver's
+/// HashSet order, which must not leak into the tape); between drains the tape opens one or several gates, injects
+/// spurious wakes, or stalls every handler. Returns the number of drain rounds, or None after a liveness violation.
 fn drive<'a, T: 'a>(
   prop: &str,
   phase: &str,
@@ -272,62 +274,57 @@ fn drive<'a, T: 'a>(
     let v = fut.await;
     *out.borrow_mut() = Some(v);
   });
-  let mut steps = 0u64;
-  let mut stalled_for = 0u32;
-  let stall_budget: u32 = if allow_stall && ctx::chance(1, 8) {
-    ctx::stat("fault.handler_stall");
-    ctx::sched("stall", 1);
-    8 + ctx::choose(8) as u32
-  } else {
-    0
+  // polls the root while it is woken; more than 8 consecutive self-wakes without any gate opening is a busy loop
+  let drain = |ex: &mut Exec<'a>| -> bool {
+    let mut n = 0;
+    while !ex.is_done(root) && !ex.runnable().is_empty() {
+      ex.poll(root);
+      n += 1;
+      if n > 8 {
+        return false;
+      }
+    }
+    true
   };
-  let mut polls_while_stalled = 0u64;
+  let mut rounds = 0u64;
+  let stall_budget: u32 = if allow_stall && ctx::chance(1, 8) { 8 + ctx::choose(8) as u32 } else { 0 };
+  if !drain(&mut ex) {
+    ctx::violation(prop, "C20.no_busy_loop", format!("{phase}/busy-loop"), "root future keeps waking itself although no handler made progress");
+    return None;
+  }
+  if stall_budget > 0 && !ex.is_done(root) {
+    // Stalled handlers: nobody opens a gate for a while; the root must stay pending without waking itself.
+    ctx::stat("fault.handler_stall");
+    ctx::sched("stall", stall_budget as u64);
+    for _ in 0..stall_budget {
+      if !ex.runnable().is_empty() {
+        ctx::violation(
+          prop,
+          "C20.no_busy_loop",
+          format!("{phase}/busy-loop"),
+          "root future woke itself while every remaining handler is stalled",
+        );
+        return None;
+      }
+    }
+  }
   loop {
     if ex.is_done(root) {
       break;
     }
-    steps += 1;
-    if steps > 400 {
+    rounds += 1;
+    if rounds > 200 {
       ctx::violation(
         prop,
         "C20.bounded_completion",
         format!("{phase}/step-cap"),
-        "root future still pending after 400 simulator steps with all gates openable",
+        "root future still pending after 200 simulator rounds with all gates openable",
       );
       return None;
     }
-    let woken = !ex.runnable().is_empty();
     let parked: Vec<(String, u64)> = st(|s| s.parked.keys().cloned().collect());
-    // Stalled handler phase: nobody opens gates; the root must stay pending without being woken in a loop.
-    if stalled_for < stall_budget {
-      stalled_for += 1;
-      if woken {
-        ex.poll(root);
-        polls_while_stalled += 1;
-        if polls_while_stalled > 4 {
-          ctx::violation(
-            prop,
-            "C20.no_busy_loop",
-            format!("{phase}/busy-loop"),
-            "root future keeps waking itself while every remaining handler is stalled",
-          );
-          return None;
-        }
-      }
-      continue;
-    }
-    // Choices: 0 = boring (poll root if woken, else open the first parked gate).
-    let mut options: Vec<u8> = Vec::new();
-    if woken {
-      options.push(0); // poll root
-    }
-    if !parked.is_empty() {
-      options.push(1); // open a gate stage
-      options.push(2); // spurious wake of a parked gate
-    }
-    options.push(3); // spurious wake of root
-    if options == [3] {
-      // nothing parked, root not woken, root not done → lost wake-up
+    if parked.is_empty() {
+      // nothing parked, root not woken (drained), root not done → lost wake-up
       ctx::violation(
         prop,
         "C20.no_lost_wakeup",
@@ -336,36 +333,37 @@ fn drive<'a, T: 'a>(
       );
       return None;
     }
-    let weights: Vec<u32> = options
-      .iter()
-      .map(|o| match o {
-        0 => 8,
-        1 => 8,
-        2 => 1,
-        _ => 1,
-      })
-      .collect();
-    let choice = options[ctx::weighted(&weights)];
-    match choice {
+    match ctx::weighted(&[10, 1, 1]) {
       0 => {
-        ex.poll(root);
-      }
-      1 => {
-        let (did, _inv) = parked[ctx::choose(parked.len())].clone();
-        let waker = st(|s| {
-          *s.open.entry(did.clone()).or_insert(0) += 1;
-          s.parked
-            .iter()
-            .filter(|((d, _), _)| *d == did)
-            .map(|(_, w)| w.clone())
-            .collect::<Vec<_>>()
-        });
-        ctx::sched("open", crate::core::tape::Fnv::of(did.as_bytes()));
-        for w in waker {
-          w.wake();
+        // open 1..3 gate stages before the root runs again (several handlers may complete in the same round)
+        let batch = 1 + ctx::weighted(&[6, 2, 1]);
+        for _ in 0..batch {
+          let parked_now: Vec<(String, u64)> = st(|s| s.parked.keys().cloned().collect());
+          if parked_now.is_empty() {
+            break;
+          }
+          let (did, _inv) = parked_now[ctx::choose(parked_now.len())].clone();
+          let wakers = st(|s| {
+            *s.open.entry(did.clone()).or_insert(0) += 1;
+            s.parked
+              .iter()
+              .filter(|((d, _), _)| *d == did)
+              .map(|(_, w)| w.clone())
+              .collect::<Vec<_>>()
+          });
+          ctx::sched("open", crate::core::tape::Fnv::of(did.as_bytes()));
+          for w in wakers {
+            w.wake();
+          }
+          // the woken handler future only observes the opened gate when it is polled; poll now or let the
+          // openings accumulate
+          if ctx::choose(2) == 0 && !drain(&mut ex) {
+            ctx::violation(prop, "C20.no_busy_loop", format!("{phase}/busy-loop"), "root future keeps waking itself");
+            return None;
+          }
         }
       }
-      2 => {
+      1 => {
         let key = parked[ctx::choose(parked.len())].clone();
         if let Some(w) = st(|s| s.parked.get(&key).cloned()) {
           ctx::stat("fault.spurious_wake_handler");
@@ -379,8 +377,12 @@ fn drive<'a, T: 'a>(
         ex.waker(root).wake();
       }
     }
+    if !drain(&mut ex) {
+      ctx::violation(prop, "C20.no_busy_loop", format!("{phase}/busy-loop"), "root future keeps waking itself");
+      return None;
+    }
   }
-  Some(ex.polls(root))
+  Some(rounds)
 }
 
 impl Engine for ResEngine {
@@ -776,7 +778,7 @@ impl Engine for ResEngine {
       ctx::mark_nontrivial();
     }
     ctx::stat_max("max.gated_in_flight", gated_in_flight as u64);
-    ctx::stat_n("polls.root", polls);
+    let _ = polls;
     // Only order-independent facts go into the trace of the multi phase (see DESIGN §4.3).
     ctx::trace(format!(
       "multi -> {} ; completion order {:?}",
